@@ -62,6 +62,16 @@ def cases(tier, seed):
                 for B in (2, 3):
                     for eq_type in (("statio_PDE", "nonstatio_PDE") if d >= 2 else ("statio_PDE",)):
                         out.append(dict(type="spinn", d=d, r=r, m=m, B=B, eq_type=eq_type, key=seed + 13))
+    # every admitted number of separated dimensions (the constructor accepts up to 24): one grid point per axis, and two for a
+    # few d whose grids stay small
+    for d in range(4, 25):
+        out.append(dict(type="spinn", d=d, r=2, m=1, B=1, eq_type="statio_PDE" if d % 2 else "nonstatio_PDE", key=seed + 13))
+    for d in (4, 9, 18) if tier == "quick" else (4, 9, 12, 17, 18, 19):
+        out.append(dict(type="spinn", d=d, r=2, m=2, B=2, eq_type="statio_PDE", key=seed + 13))
+    # matrix-valued hyper-parameters (flattened in the declared order, each row-major)
+    for hp in (["M", "N"], ["N", "M"], ["M", "b"], ["a", "N"], ["M"]):
+        for (eq_type, dx) in (("ODE", 0), ("statio_PDE", 2)):
+            out.append(dict(type="hyper", hp=hp, hidden=[2], eq_type=eq_type, dx=dx, o=1, shared=False, it="none", ot="none", key=seed + 13))
     for hp in (["a"], ["b"], ["a", "b"], ["b", "a"]):
         for hidden in ((2,), (3, 2)):
             for (eq_type, dx) in (("ODE", 0), ("statio_PDE", 2), ("nonstatio_PDE", 1)):
@@ -195,10 +205,11 @@ def run_spinn(case):
         for dd in range(d):
             f = np.stack([np_mlp(per_dim[dd], Z[i, dd:dd + 1], "tanh") for i in range(B)])  # (B, r*m)
             feats.append(f)
+        import functools
         exp = np.zeros((B,) * d + (m,))
-        for idx in itertools.product(range(B), repeat=d):
-            for mm in range(m):
-                exp[idx + (mm,)] = sum(np.prod([feats[dd][idx[dd], mm * r + k] for dd in range(d)]) for k in range(r))
+        for mm in range(m):
+            # sum over the rank of the outer product (over the axes) of the per-axis feature vectors
+            exp[..., mm] = sum(functools.reduce(np.multiply.outer, [feats[dd][:, mm * r + k] for dd in range(d)]) for k in range(r))
         if got.shape != exp.shape:
             v.append(V("SPINN", "output_is_not_a_grid_with_one_slot_per_declared_output", f"{case}: shape {got.shape} expected {exp.shape}"))
         elif not close(got, exp):
@@ -212,7 +223,8 @@ def run_hyper(case):
     key = jax.random.PRNGKey(case["key"])
     eq_type, dx, o, hp = case["eq_type"], case["dx"], case["o"], case["hp"]
     n_in = dx + (0 if eq_type == "statio_PDE" else 1)
-    eqp = {"a": jnp.asarray(0.7), "b": jnp.asarray([0.2, -1.3]), "c": jnp.asarray(5.0)}
+    eqp = {"a": jnp.asarray(0.7), "b": jnp.asarray([0.2, -1.3]), "c": jnp.asarray(5.0),
+           "M": jnp.asarray([[0.3, -0.6], [1.1, 0.4]]), "N": jnp.asarray([[0.9, 0.1, -0.5], [-0.2, 0.8, 0.6]])}
     hsize = sum(int(np.asarray(eqp[k]).size) for k in hp)
     hyper_list = ((eqx.nn.Linear, hsize, 4), (jnp.tanh,), (eqx.nn.Linear, 4, 1000))
     slices = (jnp.s_[0:1], jnp.s_[1:2]) if case["shared"] else None
